@@ -762,6 +762,8 @@ def _canon_outputs(prog: dict, res) -> dict:
 def body_map(data) -> Outcome:
     out = Outcome()
     prog = data["prog"]
+    if len(data["mods"]) > 2 and data["mods"][2] % 2:
+        prog = dict(prog, same_callable_name=True)  # every wrapped callable is called "f"
     labs = mp.labels(prog)
     ex_kind = data["executor"]
     cached_names = [fn["name"] for fn, c in zip(prog["funcs"], data["cached"]) if c]
